@@ -578,6 +578,25 @@ func (e *Env) contractForm(name string, n *ast.CallExpr) (Value, bool) {
 			e.divFacts(q, a, b)
 		}
 		return Scalar{q, mathIntType}, true
+	case "horner":
+		// horner(k, lo, hi, base, body): ((body(lo)*base + body(lo+1))*base + ...) + body(hi-1), built the
+		// way a left-to-right accumulation builds it
+		if len(n.Args) != 5 {
+			unsupported("%s: horner(k, lo, hi, base, body) expects 5 arguments", e.where)
+		}
+		id, ok := n.Args[0].(*ast.Ident)
+		l, okL := e.x.simplifyWithPC(e.st, e.toIntTerm(e.expr(n.Args[1]))).Int64()
+		h, okH := e.x.simplifyWithPC(e.st, e.toIntTerm(e.expr(n.Args[2]))).Int64()
+		if !ok || !okL || !okH || h-l > 512 {
+			unsupported("%s: horner over a non-constant or too large range", e.where)
+		}
+		base := e.toIntTerm(e.expr(n.Args[3]))
+		acc := IntC(0)
+		for i := l; i < h; i++ {
+			sub := e.sub(map[string]Value{id.Name: Scalar{IntC(i), intT}})
+			acc = Add(Mul(acc, base), sub.toIntTerm(sub.expr(n.Args[4])))
+		}
+		return Scalar{acc, mathIntType}, true
 	case "floormod":
 		// floormod(a, b): a - b*floor(a/b) for b > 0 (SMT-LIB integer modulus)
 		a := e.toIntTerm(e.derefBig(e.expr(n.Args[0])))
